@@ -21,6 +21,11 @@ CHECKS = {
          'All 10 400 five-class definition sequences (class i picks an ordered subset of the earlier classes as bases; all shorter sequences are prefixes) are pushed through the full path source text -> System -> Class.mro() and compared with CPython executing the same class statements; inconsistent hierarchies must be reported for the class and still documented. All 170 sequences of up to 4 classes additionally carry every member family (defined by every non-empty subset of classes, docstring in each possible class): Class.find, inherited docstrings, inherited-member tables and "overrides" notes are compared with attribute lookup / inspect.getdoc along __mro__. Variants: generic-subscripted bases, every acyclic placement over 2 (thorough 3) modules x 3 import styles x every processing order, and all sequences at mro.mro level (thorough: all 3 390 400 six-class sequences). The space is finite and enumerated completely.',
          'Trusted: CPython as oracle; the generator of class statements. Hierarchies CPython rejects for duplicate direct bases are not generated.',
          'DESIGN.md section 5, C05'),
+ 'C15': ('exploration',
+         'exhaustive enumeration of expression trees (depth 2, thorough depth 3), operator chains of depth 3, literal kinds and truncation settings through the real colorizer; read-back with ast.parse as oracle',
+         'Every parent form x child position x child form over a 48-form expression alphabet (all unary/binary/boolean/comparison/conditional/call/subscript/attribute/container/starred/lambda/f-string/comprehension forms), every operator chain of depth 3, 80 literal leaves and 40 values x 5 line lengths x 4 max-lines settings are rendered by the real PyvalColorizer; the shown text is parsed back with CPython and must be the same AST modulo the documented respellings; shortened output must be marked (is_complete false, ellipsis, prefix of the unlimited output). Thorough adds all depth-3 trees (650 k expressions). Failures are delta-minimised to the smallest failing sub-expression and classified, so known third-party (astor) deviations do not mask new ones.',
+         'Trusted: CPython ast.parse/unparse as oracle; the form alphabet. Documented respellings (set([...]), quote style, numeric formatting) are normalised on both sides.',
+         'DESIGN.md section 5, C15'),
 }
 
 
